@@ -170,7 +170,11 @@ func runNative(w *World, dir string, p *ssa.Package, jobs []*replayJob, hfiles m
 	for _, n := range names {
 		fmt.Fprintf(&sb, "\t%q: %s,\n", n, n)
 	}
-	sb.WriteString("}\n\nfunc TestVerifReplay(t *testing.T) {\n\tcases, err := vp.LoadCases()\n\tif err != nil {\n\t\tt.Fatal(err)\n\t}\n\tvar out []vp.Result\n\tfor _, c := range cases {\n\t\tout = append(out, vp.RunCase(c, verifHarnesses[c.Harness]))\n\t}\n\tif err := vp.SaveResults(out); err != nil {\n\t\tt.Fatal(err)\n\t}\n}\n")
+	initCall := ""
+	if p.Func("VerifReplayInit") != nil {
+		initCall = "\tVerifReplayInit()\n"
+	}
+	sb.WriteString("}\n\nfunc TestVerifReplay(t *testing.T) {\n" + initCall + "\tcases, err := vp.LoadCases()\n\tif err != nil {\n\t\tt.Fatal(err)\n\t}\n\tvar out []vp.Result\n\tfor _, c := range cases {\n\t\tout = append(out, vp.RunCase(c, verifHarnesses[c.Harness]))\n\t}\n\tif err := vp.SaveResults(out); err != nil {\n\t\tt.Fatal(err)\n\t}\n}\n")
 	driver := filepath.Join(work, "zz_verif_replay_test.go")
 	os.WriteFile(driver, []byte(sb.String()), 0644)
 	repl := map[string]string{}
